@@ -414,9 +414,26 @@ pub fn check_cfg_with(cfg: &Cfg, t: &AtomTables, do02: bool, do03: bool, conform
             return out;
         }
     };
+    analyse_built(&sc, &spec, &log, t, do02, do03, conform, memoize_impl, blocks_override, out)
+}
+
+/// The C02/C03 analysis of an already built scanner (`log` = recorded minimizer pairs of its build).
+#[allow(clippy::too_many_arguments)]
+pub fn analyse_built(
+    sc: &Scanner,
+    spec: &[refsem::model::ModeSpec],
+    log: &[(DfaDump, DfaDump)],
+    t: &AtomTables,
+    do02: bool,
+    do03: bool,
+    conform: bool,
+    memoize_impl: bool,
+    blocks_override: Option<Arc<Blocks>>,
+    mut out: E1Outcome,
+) -> E1Outcome {
     let dump = sc.verif_dump();
     let mut regexes: Vec<&Regex> = vec![];
-    for m in &spec {
+    for m in spec {
         for p in &m.patterns {
             regexes.push(&p.regex);
             if let Some((_, l)) = &p.la {
@@ -426,10 +443,10 @@ pub fn check_cfg_with(cfg: &Cfg, t: &AtomTables, do02: bool, do03: bool, conform
     }
     let blocks = match blocks_override {
         Some(b) => b,
-        None => blocks_for(&sc, &dump, &regexes, t, memoize_impl),
+        None => blocks_for(sc, &dump, &regexes, t, memoize_impl),
     };
     out.blocks = blocks.reps.len();
-    let cm = class_matrix(&sc, dump.classes.len(), &blocks);
+    let cm = class_matrix(sc, dump.classes.len(), &blocks);
     if do02 {
         if dump.modes.len() != spec.len() {
             out.c02.push(("modes".into(), Mismatch { what: format!("{} modes configured, {} compiled", spec.len(), dump.modes.len()), witness: String::new() }));
@@ -444,7 +461,7 @@ pub fn check_cfg_with(cfg: &Cfg, t: &AtomTables, do02: bool, do03: bool, conform
             let pats: Vec<(&Regex, u32)> = ms.patterns.iter().map(|p| (&p.regex, p.token_type as u32)).collect();
             let glus: Vec<Glushkov> = pats.iter().map(|(r, _)| Glushkov::build(r)).collect();
             let has_la = ms.patterns.iter().any(|p| p.la.is_some());
-            let conf = if conform && !has_la { Some((&sc, mi)) } else { None };
+            let conf = if conform && !has_la { Some((sc, mi)) } else { None };
             if let Some(m) = product_vs_reference(&md.dfa, &pats, &glus, &blocks, &cm, t, conf, &mut out.stats02) {
                 out.c02.push((where_.clone(), m));
             }
